@@ -63,12 +63,11 @@ class F:
         return self.m == 0
 
     def atoms(self):
-        m, i, out = self.m, 0, []
+        m, out = self.m, []
         while m:
-            if m & 1:
-                out.append(i)
-            m >>= 1
-            i += 1
+            low = m & -m
+            out.append(low.bit_length() - 1)
+            m ^= low
         return out
 
     def __repr__(self):
@@ -515,14 +514,12 @@ class LinSys:
         if not m:
             return f
         fm, fc = f.m, f.c
-        i = 0
         while m:
-            if m & 1:
-                r = self.rows[i]
-                fm ^= (1 << i) ^ r.m
-                fc ^= r.c
-            m >>= 1
-            i += 1
+            low = m & -m
+            r = self.rows[low.bit_length() - 1]
+            fm ^= low ^ r.m
+            fc ^= r.c
+            m ^= low
         return F(fm, fc)
 
     def add(self, e: "F") -> str:
@@ -712,6 +709,9 @@ class Interp:
             self.st.eqs.append((key, const, True))
         else:
             self.st.eqs.append((key, const, False))
+            if len(eqs) == 1:
+                # a single bit that is not c is 1-c: linear after all
+                self.st.lin.add(eqs[0] ^ 1)
         return v
 
     def decide(self, v, label="cond") -> bool:
@@ -992,7 +992,18 @@ class Frame:
                     raise Abort("case split does not make the branch decidable")
                 return self.stmt_by_cases(st, m, list(atoms) + more)
             except (_Ret, _Break, _Continue):
-                raise Abort("return/break/continue inside a data-dependent branch")
+                # control leaves the statement on some assignments: no merge point — fork the PATH on the atoms instead
+                I.case_depth -= 1
+                I.st.lin = saved
+                self.env = base_env
+                if len(atoms) > 8:
+                    raise Abort("return/break/continue inside a data-dependent branch over too many atoms")
+                for a_ in atoms:
+                    if a_ in I.st.subst:
+                        continue
+                    v_ = I.st.choose(f"atom:{I.atoms.names[a_]!r}"[:60])
+                    I.st.lin.add(F(1 << a_, int(v_)))
+                return m(st)
             except PathRaise as e:
                 raise PartialRaise(e.exc, f"{self.fi.module.relpath}:{st.lineno}")
             finally:
